@@ -184,6 +184,12 @@ class MajorityJudgment:
                             if cand not in winners
                         }, n_seats - i)
                     else:
+                        # the lead is shared: only the level candidates
+                        # stay in the contest for these seats
+                        scores = {
+                            cand: cscores for cand, cscores in scores.items()
+                            if cand in result
+                        }
                         break
             else:
                 return best
